@@ -25,6 +25,14 @@ def values_of(state, default):
 def paths_of(g, n_random, rng, default):
     """An edge cover (every transition on at least one behaviour) plus random behaviours from the initial state."""
     init = g.init[0]
+    # every state offers all kinds of arithmetic; the walk keeps three of them per state (all kinds occur thousands of times)
+    thin = {}
+    for s_, outs in g.out.items():
+        ar = [e for e in outs if e[0][0] == "Arith"]
+        kinds = sorted({e[0][1][1] for e in ar})
+        keep = set(rng.sample(kinds, min(3, len(kinds))))
+        thin[s_] = [e for e in outs if e[0][0] != "Arith" or e[0][1][1] in keep]
+    g = type(g)(g.nodes, g.init, thin, sum(len(v) for v in thin.values()))
     # shortest path tree
     parent = {init: None}
     order = [init]
@@ -136,7 +144,7 @@ def run(tier, seed):
             ctx.tags[key] = len(paths)
             for pth in paths:
                 for st in pth:
-                    k2 = f"{kind}/{st['action']}"
+                    k2 = f"{kind}/{st['action']}" + (f"/{st['args'][1]}" if st["action"] == "Arith" else "")
                     ctx.tags[k2] = ctx.tags.get(k2, 0) + 1
             if len(ctx.samples) < 6 and paths:
                 ctx.samples.append({"kind": kind, "env": env, "behaviour": [f"{s['action']}{tuple(s['args'])}" for s in paths[len(paths) // 2]]})
